@@ -138,9 +138,11 @@ CHECKS = {
         text='Byte-level MIR execution of the journal writer and reader (as for C03): every unit shape (all value kinds, clear, batches) written by the real writer is read back with '
              'identical seqno / keyspace ids / kinds / keys / values; for EVERY byte position of a journal of complete units and EVERY other value of that byte, z3 decides that opening '
              'fails or yields an identical prefix (checksum modelled as collision-free); the writer\'s compression choice depends only on threshold and length and the reader only on the stored tag. '
-             'The solver finds the bytes outside the checksum (Start.seqno): known finding, replayed natively by flipping the byte in a real journal.',
+             'The solver finds the bytes outside the checksum (Start.seqno): known finding, replayed natively by flipping the byte in a real journal. '
+             'Thorough tier adds five Kani/CBMC proof harnesses over the compiled entry codec (marker round trips, trailer damage, item round trip with key/value <= 2 bytes, arbitrary marker bytes).',
         design_ref='DESIGN.md §5 C15',
-        note='Not applicable (clause): bit-exactness of LZ4 and values around the compression threshold (lz4_flex whole-buffer loops; assumed F6, exercised natively only). '
+        note='fjall\'s own logic around LZ4 (what is stored under the Lz4 tag vs. what the reader decompresses, for every value length and compressed length) IS decided (compression/lz4-coherent; '
+             'native replay builds a value whose LZ4 image is exactly as long as the value). Not applicable (clause): bit-exactness of the lz4_flex codec itself (whole-buffer loops; assumed F6). '
              'Outside: keys > 2 / values > 2 bytes, more than one altered byte, checksum collisions (F5).',
         technique='MIR symbolic execution of writer and reader over a byte-level symbolic file + z3; native byte-flip replay',
     ),
